@@ -484,3 +484,114 @@ def preorder(stages):
         out.append(c)
         stack.extend(reversed(kids.get(c, [])))
     return out
+
+
+
+def reuse_objects(ctx, cases, steps=30, ranges=True):
+    """ONE `Exporter` object and ONE `ExportOptions` object (default-constructed) serve a whole sequence of exports of several documents,
+    through `Exporter.export_string` and `kernpy.export`: between the calls the fields of the options object are reassigned or the
+    collections it holds are edited IN PLACE (a field whose value does not change is left alone), documents with different numbers of
+    spines alternate, and some calls raise (an agnostic encoding on a spine without clef, a start beyond the last measure, an end before
+    the start) - after a call that raised the same document is often exported again at once through the same objects.  Every result must
+    be what fresh objects holding the same values give.  (Added after the sixth round of seeded changes: caches and state kept on the
+    Exporter or written into the caller's options object - C05_r6_2, C06_r6_1, C07_r6_2, C08_r6_2, C13_r6_2, C14_r6_2.)"""
+    import copy
+    import kernpy as kp
+    from kernpy.core import Exporter, ExportOptions
+    from kernpy.core.tokens import TokenCategory as TC
+    from kernpy.core.tokenizers import Encoding
+    rng = ctx.rng
+    live = [c for c in cases if c.doc is not None]
+    if not live:
+        return
+    ex = opts = mine = history = again = None
+    for step in range(steps):
+        if step % 12 == 0:
+            # a new pair of objects every dozen calls: what matters often happens in the first calls an object serves
+            ex = Exporter()
+            opts = ExportOptions()
+            mine = {'types': None, 'ids': None, 'cats': None}      # what this function last put into the object (None: the constructor's default)
+            history = []
+            again = None
+        case = again if again is not None and rng.random() < 0.7 else rng.choice(live)
+        hs = case.adoc['headers']
+        M = len(case.doc.measure_start_tree_stages)
+        enc = rng.choice(list(Encoding)) if again is None else rng.choice([Encoding.normalizedKern, Encoding.eKern, Encoding.bEkern])
+        exc = rng.choice([None, None, [TC.DECORATION], [TC.DURATION], [TC.LYRICS, TC.SIGNATURES], [TC.CORE]])
+        cats = None if exc is None else sorted(TC.valid(include=None, exclude=exc), key=lambda c: c.value)
+        types = rng.choice([None, None, ['**kern'], [], sorted(set(hs))[:1], sorted(set(hs))])
+        ids = rng.choice([None, None, None, [0], list(range(len(hs))), [], [len(hs) - 1]])
+        fm, tm = rng.choice([(None, None), (None, None), (1, None), (M, M), (None, 1), (M + 3, None), (2, 1), (1, M), (0, M), (M, None)]) if ranges else (None, None)
+        vals = {'types': types, 'ids': ids, 'cats': 'all' if cats is None else [c.name for c in cats], 'enc': enc.name, 'from': fm, 'to': tm}
+        all_cats = sorted(TC.valid(include=None, exclude=None), key=lambda c: c.value)
+        # the shared options object: a field is touched only when its value changes; then it is reassigned, or the collection is edited in place
+        if cats != mine['cats']:
+            want = all_cats if cats is None else cats
+            if rng.random() < 0.5 and isinstance(opts.token_categories, set):
+                opts.token_categories.clear(); opts.token_categories.update(want); vals['how_cats'] = 'in place'
+            elif rng.random() < 0.5 and isinstance(opts.token_categories, list):
+                del opts.token_categories[:]; opts.token_categories.extend(want); vals['how_cats'] = 'in place'
+            else:
+                opts.token_categories = rng.choice([set, list])(want)
+            mine['cats'] = cats
+        if types != mine['types']:
+            if types is None:
+                opts.spine_types = copy.deepcopy(ExportOptions().spine_types)
+            elif rng.random() < 0.5 and isinstance(opts.spine_types, list):
+                del opts.spine_types[:]; opts.spine_types.extend(types); vals['how_types'] = 'in place'
+            elif rng.random() < 0.5 and isinstance(opts.spine_types, set) and mine['types'] is not None:
+                opts.spine_types.clear(); opts.spine_types.update(types); vals['how_types'] = 'in place'
+            else:
+                opts.spine_types = list(types)
+            mine['types'] = types
+        if ids != mine['ids']:
+            if ids is not None and rng.random() < 0.5 and isinstance(opts.spine_ids, list):
+                del opts.spine_ids[:]; opts.spine_ids.extend(ids); vals['how_ids'] = 'in place'
+            else:
+                opts.spine_ids = None if ids is None else list(ids)
+            mine['ids'] = ids
+        if opts.kern_type != enc:
+            opts.kern_type = enc
+        if (opts.from_measure, opts.to_measure) != (fm, tm):
+            opts.from_measure, opts.to_measure = fm, tm
+        via = 'Exporter.export_string' if again is not None or rng.random() < 0.7 else 'kernpy.export'
+        vals['via'] = via
+        history.append(vals)
+        if via == 'kernpy.export':
+            shared = call(lambda: kp.export(case.doc, opts))
+        else:
+            shared = call(lambda: ex.export_string(case.doc, opts))
+        fresh = call(lambda: Exporter().export_string(case.doc, ExportOptions(
+            spine_types=None if types is None else list(types), token_categories=set(all_cats if cats is None else cats), from_measure=fm, to_measure=tm,
+            kern_type=enc, spine_ids=None if ids is None else list(ids))))
+        ctx.seen({'text': case.text, 'clause': 'reused Exporter and ExportOptions', **{k: str(v) for k, v in vals.items()}}, True)
+        ctx.count('reuse:' + ('raises' if 'err' in fresh else 'ok'))
+        if shared != fresh:
+            ctx.fail({'text': case.text, 'clause': 'reused Exporter and ExportOptions objects', 'this_call': {k: str(v) for k, v in vals.items()},
+                      'earlier_calls': [{k: str(v) for k, v in h.items()} for h in history[:-1]][-6:]},
+                     'an export through an Exporter / ExportOptions object that has served other calls differs from the export with fresh objects holding the same values',
+                     impl=shared, expected=fresh)
+            return
+        again = case if 'err' in fresh and again is None else None
+
+
+
+def edit_category_sets():
+    """a caller empties every collection the category-tree functions hand out (enum and mapper class, for every category): what the library
+    decides afterwards must not depend on it (round 6, C18_r6_1: `nodes()` memoised and returned the cached set itself)"""
+    from kernpy.core.tokens import TokenCategory as TC, TokenCategoryHierarchyMapper as HM
+    for c in TC:
+        for f in (HM.nodes, HM.children, HM.leaves, TC.nodes, TC.children, TC.leaves):
+            try:
+                got = f(c)
+                if hasattr(got, 'clear'):
+                    got.clear()
+            except Exception:  # noqa
+                pass
+    for f in (lambda: TC.valid(), lambda: TC.all(), lambda: TC.valid(include=[TC.SIGNATURES]), lambda: HM.valid(include=None, exclude=None), lambda: HM.all()):
+        try:
+            got = f()
+            if hasattr(got, 'clear'):
+                got.clear()
+        except Exception:  # noqa
+            pass
